@@ -123,7 +123,14 @@ bool Exec<Cfg>::run_real(Op const& op) {
 				if(op.var & 1) new(raw) Arr<D>(x, val, al);
 				else new(raw) Arr<D>(x, val);
 			} break;
-			case O_CTOR_COPY: { Arr<D> const& b = pool<D>().at(op.b); OpScope s; new(raw) Arr<D>(b); } break;
+			case O_CTOR_COPY:
+				if(op.var == 1) {  // from a temporary array_ref over the storage of b: the elements are copied, the referenced storage keeps its values
+					Arr<D>& b = pool<D>().at(op.b);
+					OpScope s;
+					new(raw) Arr<D>(multi::array_ref<E, D, P>(b.data_elements(), b.extensions()));
+					break;
+				}
+				{ Arr<D> const& b = pool<D>().at(op.b); OpScope s; new(raw) Arr<D>(b); } break;
 			case O_CTOR_COPY_ALLOC: { Arr<D> const& b = pool<D>().at(op.b); OpScope s; new(raw) Arr<D>(b, al); } break;
 			case O_CTOR_MOVE:
 				if(op.var == 1) {
@@ -474,6 +481,7 @@ bool Exec<Cfg>::run_real(Op const& op) {
 			if(op.var == 0) read_brackets<ET>(cv, got, ok);
 			else if(op.var == 1) read_elements<ET>(cv, got, ok);
 			else if(op.var == 2) read_iterators<ET>(cv, got, ok);
+			else if(op.var == 5) read_elements_arrow<ET>(cv, got, ok);
 			else if constexpr(std::is_same_v<E, Triv>) {
 				if(op.var == 3) {
 					auto&& rv = v.template reinterpret_array_cast<i64>();
